@@ -129,6 +129,16 @@ def coq_pwf(d):
             k = f"(KJobIn {coq_str(st['fcls'])})"
         elif st["cls"] == "ExecuteStep" and not st["procs"] and st["command"] is None:
             k = f"(KExecute {coq_smap(st['conns'])})"
+        elif st["cls"] == "DeployStep":
+            dc = coq_pdeploy(st["dep"])
+            if dc is None:
+                return None
+            k = f"(KDeploy {dc})"
+        elif st["cls"] == "ScheduleStep" and st["hw"] is None:
+            b = coq_pbinding(st["binding"])
+            if b is None:
+                return None
+            k = f"(KSchedule {b} {coq_str(st['prefix'])} {coq_list([coq_jv(x) for x in st['dirs']])})"
         else:
             return None
         steps.append(f"(mkstep {coq_str(st['name'])} {k} {coq_Z(st['status'])} {coq_smap(st['in'])} {coq_smap(st['out'])})")
@@ -171,12 +181,23 @@ def coq_wdb(t):
                 dp = f"(DJobIn {coq_str(typ)} {coq_nat(params['job_port'])})"
             elif cls == "ExecuteStep" and params["output_processors"] == {} and params["command"] is None:
                 dp = f"(DExecute {coq_nat(params['job_port'])} {coq_smap(params['output_connectors'])})"
+            elif cls == "DeployStep":
+                dp = f"(DDeploy {coq_nat(params['deployment_config'])} {coq_nat(params['connector_port'])})"
+            elif cls == "ScheduleStep" and not params.get("hardware_requirement"):
+                b = params["binding_config"]
+                cps = coq_list([f"({coq_str(k)}, {coq_nat(v)})" for k, v in params["connector_ports"].items()])
+                dirs = [params["input_directory"], params["output_directory"], params["tmp_directory"]]
+                dp = (f"(DSchedule {coq_list([coq_nat(x) for x in b['targets']])} {coq_list([coq_nat(x) for x in b['filters']])} "
+                      f"{coq_nat(params['job_port'])} {cps} {coq_str(params['job_prefix'])} {coq_list([coq_jv(x) for x in dirs])})")
             else:
                 return None
             st.append(f"(mksrow {coq_str(name)} {coq_nat(w)} {coq_Z(status)} {dp})")
         for step, port, typ, name in t["dependency"]:
             de.append(f"(mkdrow {coq_nat(step)} {coq_nat(port)} {coq_bool(typ == 0)} {coq_str(name)})")
-        return f"(mkwdb {coq_list(wf)} {coq_list(po)} {coq_list(st)} {coq_list(de)})"
+        cfg = coq_cdb(t["cfg"])
+        if cfg is None:
+            return None
+        return f"(mkwdb {coq_list(wf)} {coq_list(po)} {coq_list(st)} {coq_list(de)} {cfg})"
     except (KeyError, TypeError, AssertionError):
         return None
 
@@ -266,12 +287,13 @@ class C08(Prop):
         "JSON value, ListToken, ObjectToken, JobToken with its Job and input tokens, TerminationToken, "
         "IterationTerminationToken); saving never changes what stored records load to; with the deep-copying getters a "
         "change inside one handed-out row changes no other handed-out row, cached cell or stored record; refutation witness "
-        "for the pre-fix shallow copies. Tied to /repo on every case: the model's loaders run on the rows the real save "
-        "wrote and are compared with the real load; the model's saves are compared with those rows. DeployStep and "
-        "ScheduleStep as steps (their configurations are modelled separately), commands and output processors, hardware "
-        "requirements, CWL entities and the absence of persistent ids in the builder copy are NOT modelled (Deploy/"
-        "ScheduleStep workflows and the id check are judged by the oracle on the real code).")
-    LEVEL_NOTE = ("Partial: DeployStep/ScheduleStep rows, commands/processors, hardware requirements, port classes with "
+        "for the pre-fix shallow copies. DeployStep (its DeploymentConfig) and ScheduleStep (its binding, prefix, "
+        "directories) are inside the workflow theorem, the deployment/target/filter tables threaded through the save. "
+        "Tied to /repo on every case: the model's loaders run on the rows the real save wrote and are compared with the "
+        "real load; the model's saves are compared with those rows (configuration ids up to renaming). Commands and "
+        "output processors (hence ExecuteSteps with output ports), hardware requirements, CWL entities and the absence of "
+        "persistent ids in the builder copy are NOT modelled (judged by the oracle on the real code).")
+    LEVEL_NOTE = ("Partial: commands/output processors, hardware requirements, port classes with "
                   "parameters and CWL entities are outside the workflow theorem; dict and row order and the interleaving "
                   "of concurrent INSERTs are abstracted (compared as maps/sets); shared configuration objects are saved "
                   "once by the code and per occurrence by the tree model; independence is proved at the database layer "
@@ -281,8 +303,7 @@ class C08(Prop):
             "containers, all six classes incl. JobToken with its Job and input tokens); wf: random graphs of 1-6 ports and 0-5 steps (scatter, gather with depth, "
             "combinator and loop-combinator steps with nested dot/cartesian/loop/loop-termination trees, concrete "
             "subclasses of Transformer/ConditionalStep/LoopOutputStep/TransferStep/InputInjectorStep, ExecuteStep with "
-            "output connectors, and -- oracle only -- DeployStep and ScheduleStep with their deployment/binding "
-            "configurations), tokens on ports, input/output ports, nested config; cfg: bindings of 0-3 targets (plain and "
+            "output connectors, DeployStep and ScheduleStep with their deployment/binding configurations), tokens on ports, input/output ports, nested config; cfg: bindings of 0-3 targets (plain and "
             "local, deployments with wraps/policy/workdir variants) and 0-2 filters. Non-trivial = a token tree with a container, or a workflow with >=1 step. Distinct = "
             "distinct canonical JSON.")
     TRUSTED = ("models: Persist/Model.v (token classes incl. JobToken/Job over the token table), Persist/WfModel.v (Workflow, "
@@ -352,7 +373,7 @@ class C08(Prop):
         nports = rng.randrange(1, 7)
         ports = [{"name": f"port{i}", "cls": rng.choice(["Port", "Port", "JobPort", "ConnectorPort"])} for i in range(nports)]
         steps = []
-        with_cfg = rng.random() < 0.3       # DeployStep / ScheduleStep: judged by the oracle only
+        with_cfg = rng.random() < 0.4       # DeployStep / ScheduleStep with their configuration objects
         for i in range(rng.randrange(0, 6)):
             kind = rng.choice(["scatter", "gather", "comb", "comb", "loopcomb", "plain", "plain", "jobin", "execute"]
                               + (["deploy", "schedule"] * 2 if with_cfg else []))
@@ -580,6 +601,7 @@ class C08(Prop):
             r[4] = json.loads(r[4])
         for r in out["step"]:
             r[5] = json.loads(r[5])
+        out["cfg"] = await self._cfg_tables(ctx)
         return out
 
     # -- workflows
